@@ -97,7 +97,7 @@ Proof. exact (bad_final_elim _ _ _ refute_returns_orig). Qed.
 Print Assumptions C10_returns_refuted.
 
 Theorem C10_returns_refuted_without_done_signal : exists s,
-  reachable (mkCfg true false true true true) s /\ quiescentb (mkCfg true false true true true) s = true
+  reachable (mkCfg true false true true true true) s /\ quiescentb (mkCfg true false true true true true) s = true
   /\ trig s = true /\ not_returned s = true.
 Proof. exact (bad_final_elim _ _ _ refute_returns_no_done). Qed.
 
@@ -108,7 +108,7 @@ Proof. exact (bad_final_elim _ _ _ refute_upstream_orig). Qed.
 Print Assumptions C10_upstream_closed_on_return_refuted.
 
 Theorem C10_upstream_closed_refuted_without_close : exists s,
-  reachable (mkCfg false true true true true) s /\ quiescentb (mkCfg false true true true true) s = true
+  reachable (mkCfg false true true true true true) s /\ quiescentb (mkCfg false true true true true true) s = true
   /\ trig s = true /\ (returned s && negb (sc_closed s)) = true.
 Proof. exact (bad_final_elim _ _ _ refute_upstream_no_close). Qed.
 
@@ -125,7 +125,7 @@ Proof. exact (bad_final_elim _ _ _ refute_emit_orig). Qed.
 Print Assumptions C10_emit_into_dead_channel_refuted.
 
 Theorem C10_emit_refuted_without_abort : exists s,
-  reachable (mkCfg true true false true true) s /\ quiescentb (mkCfg true true false true true) s = true
+  reachable (mkCfg true true false true true true) s /\ quiescentb (mkCfg true true false true true true) s = true
   /\ trig s = true /\ stuck_in_emit s = true.
 Proof. exact (bad_final_elim _ _ _ refute_emit_no_abort). Qed.
 
@@ -148,6 +148,19 @@ Theorem C10_returns_refuted_with_leaked_destMu : exists s,
   /\ trig s = true /\ lock_leaked_writer_stuck s = true.
 Proof. exact (bad_final_elim _ _ _ refute_destmu_leak). Qed.
 Print Assumptions C10_returns_refuted_with_leaked_destMu.
+
+(* processFrame's DATA case losing its errors (an inner `err :=`): neither a failed credit write toward
+   the DATA sender nor a DATA frame rejected by the stream processor ends the session any more:
+   both relays keep relaying although a session-ending event has happened *)
+Theorem C10_returns_refuted_with_swallowed_write_error : exists s,
+  reachable cfg_swallow s /\ quiescentb cfg_swallow s = true /\ trig s = true /\ still_relaying s = true.
+Proof. exact (bad_final_elim _ _ _ refute_swallowed_write_error). Qed.
+Print Assumptions C10_returns_refuted_with_swallowed_write_error.
+
+Theorem C10_returns_refuted_with_swallowed_processor_error : exists s,
+  reachable cfg_swallow s /\ quiescentb cfg_swallow s = true /\ trig s = true /\ still_relaying s = true.
+Proof. exact (bad_final_elim _ _ _ refute_swallowed_processor_error). Qed.
+Print Assumptions C10_returns_refuted_with_swallowed_processor_error.
 
 (* what does hold of the relay as it was: proxy shutdown makes Proxy return
    unless a reader is wedged on the output channel of a direction whose writer
@@ -190,6 +203,15 @@ Example C10_example_credit_failure :
   match run cfg_fixed init (w_credit_fails_writer_waits ++ [IWSend Sv true; IHandshake Sv; IStop Sv; IJoin; ICallerClose; IReadEnd Sv]) with
   | Some s => quiescentb cfg_fixed s && trig s && negb (blocks s Cl) && negb (blocks s Sv) && c10_ok (obs_of s)
   | None => false
+  end = true.
+Proof. vm_compute. reflexivity. Qed.
+
+(* the repaired relay ends the session on both *)
+Example C10_example_data_errors_end_the_session :
+  match run cfg_fixed init (w_credit_write_fails ++ [IHandshake Cl; IStop Cl; ISelDone Sv; IHandshake Sv; IStop Sv; IJoin; ICallerClose; IReadEnd Sv]),
+        run cfg_fixed init (w_processor_rejects_data ++ [IHandshake Cl; IStop Cl; ISelDone Sv; IHandshake Sv; IStop Sv; IJoin; ICallerClose; IReadEnd Sv]) with
+  | Some s1, Some s2 => quiescentb cfg_fixed s1 && trig s1 && c10_ok (obs_of s1) && quiescentb cfg_fixed s2 && trig s2 && c10_ok (obs_of s2)
+  | _, _ => false
   end = true.
 Proof. vm_compute. reflexivity. Qed.
 
